@@ -131,6 +131,12 @@ func (ts *TermStore) Bound(hint string, sort Sort) *Term {
 	return ts.mk(kBound, fmt.Sprintf("?%s!%d", sanitize(hint), n), sort)
 }
 
+// BoundNamed: the bound variable with exactly this name (hash-consed): evaluating the same contract clause twice in
+// states that agree on what it reads then yields the identical quantified term, not an alpha-variant of it.
+func (ts *TermStore) BoundNamed(name string, sort Sort) *Term {
+	return ts.mk(kBound, "?"+sanitize(name), sort)
+}
+
 func (ts *TermStore) Quant(q string, bv, body *Term) *Term {
 	if body.IsTrue() && q == "forall" {
 		return body
